@@ -282,7 +282,9 @@ ssize_t _whawty_write_data(int sock, const void* data, size_t len, int timeout)
     }
 
     ssize_t nwritten = write(sock, (void*)(data + offset), len - offset);
-    if(nwritten < 0 || (nwritten == 0 && errno != EINTR)) {
+    if(nwritten < 0 && errno == EINTR)
+      continue;
+    if(nwritten < 0 || (nwritten == 0 && len > offset)) {
       return offset;
     }
     offset += nwritten;
@@ -368,7 +370,9 @@ ssize_t _whawty_read_data(int sock, const void* data, size_t len, int timeout)
     }
 
     ssize_t nread = read(sock, (void*)(data + offset), len - offset);
-    if(nread < 0 || (nread == 0 && errno != EINTR)) {
+    if(nread < 0 && errno == EINTR)
+      continue;
+    if(nread <= 0) {
       return offset;
     }
     offset += nread;
